@@ -214,10 +214,13 @@ Plan generate(Rng &rng, const Opts &opts, uint64_t)
             if (inst != 0 && rng.chance(1, 2)) {
                 // ... or asked again about the model it already has, after the client has edited one identifier of it
                 long m = p.steps.back().a[1];
-                ++sid;
-                p.steps.push_back(mk(t, "EDIT", {sid, m, long(rng.below(8)), long(rng.below(16)), long(rng.below(3))}));
-                ++sid;
-                p.steps.push_back(mk(t, "ANNOT", {sid, m, inst}));
+                long rounds = rng.range(1, 4);
+                for (long k = 0; k < rounds; ++k) {
+                    ++sid;
+                    p.steps.push_back(mk(t, "EDIT", {sid, m, long(rng.below(8)), long(rng.below(16)), long(rng.below(3))}));
+                    ++sid;
+                    p.steps.push_back(mk(t, "ANNOT", {sid, m, inst}));
+                }
             }
         } else {
             p.steps.push_back(mk(t, "EQUALS", {sid, ms[rng.below(ms.size())], ms[rng.below(ms.size())]}));
@@ -740,24 +743,39 @@ void execute(const Plan &plan, Ctx &ctx)
                 }
                 return false;
             };
-            auto ids = an->ids();
-            o << "ids=" << ids.size() << " count=" << an->itemCount("") << "\n";
-            for (auto &id : ids) {
-                o << esc(id) << " n=" << an->itemCount(id) << " unique=" << an->isUnique(id);
-                for (auto &item : an->items(id)) {
-                    o << " [" << itemString(item) << "]";
-                    foreign += belongs(item) ? 0 : 1;
+            auto lookups = [&](const AnnotatorPtr &a, std::ostringstream &out) {
+                auto ids = a->ids();
+                out << "ids=" << ids.size() << " count=" << a->itemCount("") << "\n";
+                for (auto &id : ids) {
+                    out << esc(id) << " n=" << a->itemCount(id) << " unique=" << a->isUnique(id);
+                    for (auto &item : a->items(id)) {
+                        out << " [" << itemString(item) << "]";
+                        foreign += belongs(item) ? 0 : 1;
+                    }
+                    auto one = a->item(id);
+                    foreign += belongs(one) ? 0 : 1;
+                    out << " item=" << itemString(one) << " issues{" << dumpIssues(a) << "}\n";
                 }
-                auto one = an->item(id);
-                foreign += belongs(one) ? 0 : 1;
-                o << " item=" << itemString(one) << " issues{" << dumpIssues(an) << "}\n";
-            }
-            o << "dups:";
-            for (auto &d : an->duplicateIds()) {
-                o << " " << esc(d);
-            }
-            o << "\nmissing=" << itemString(an->item("no_such_id_x")) << " issues{" << dumpIssues(an) << "}\n";
+                out << "dups:";
+                for (auto &d : a->duplicateIds()) {
+                    out << " " << esc(d);
+                }
+                out << "\nmissing=" << itemString(a->item("no_such_id_x")) << " issues{" << dumpIssues(a) << "}\n";
+            };
+            lookups(an, o);
             checkLogger(ctx, an, "annotator", "item", true);
+            if (inst != 0 && foreign == 0) {
+                // the same questions to a new annotator: a used instance answers like a fresh one
+                auto freshAnnotator = Annotator::create();
+                freshAnnotator->setModel(it->second);
+                std::ostringstream f;
+                lookups(freshAnnotator, f);
+                ctx.count("purity_used_annotator_compared_with_new_one");
+                if (f.str() != o.str()) {
+                    ctx.violate("C12", "used-instance-differs-from-fresh", "Annotator", "a long-lived annotator answers differently from a new one on the same model: " + firstDifference(f.str(), o.str()));
+                    return;
+                }
+            }
             if (foreign != 0) {
                 ctx.violate("C12", "answer-from-remembered-state", inst == 0 ? "Annotator,fresh-instance" : "Annotator,reused-instance", "annotator lookups after setModel(m) returned " + str(foreign) + " object(s) that do not belong to m");
                 return;
